@@ -69,6 +69,7 @@ func (op *LogOp) ApplyTo(cstate consensus.State) (consensus.State, error) {
 			logger.Error(err)
 			goto ROLLBACK
 		}
+		verifHook("Apply", op.consensus, state, op.Type, pin)
 		// Async, we let the PinTracker take care of any problems
 		op.consensus.rpcClient.GoContext(
 			ctx,
@@ -85,6 +86,7 @@ func (op *LogOp) ApplyTo(cstate consensus.State) (consensus.State, error) {
 			logger.Error(err)
 			goto ROLLBACK
 		}
+		verifHook("Apply", op.consensus, state, op.Type, pin)
 		// Async, we let the PinTracker take care of any problems
 		op.consensus.rpcClient.GoContext(
 			ctx,
